@@ -432,6 +432,83 @@ func ExtractLayout(p *core.Prog, fn *ssa.Function, isBuf, isRoot func(ssa.Value)
 		case *ssa.Call:
 			if bi, ok := t.Common().Value.(*ssa.Builtin); ok && bi.Name() == "copy" {
 				dst, src := t.Common().Args[0], t.Common().Args[1]
+				// array field <-> buffer region: copy(x.F[:], buf[a:b]) / copy(buf[a:], x.F[:])
+				arrField := func(v ssa.Value) (string, int, bool) {
+					sl, ok := v.(*ssa.Slice)
+					if !ok || sl.Low != nil {
+						return "", 0, false
+					}
+					pt, ok := sl.X.Type().Underlying().(*types.Pointer)
+					if !ok {
+						return "", 0, false
+					}
+					at, ok := pt.Elem().Underlying().(*types.Array)
+					if !ok {
+						return "", 0, false
+					}
+					f, e, ok := fieldPath(sl.X, isRoot, env)
+					if !ok || e >= 0 {
+						return "", 0, false
+					}
+					n := int(at.Len())
+					if sl.High != nil {
+						h, ok := evalInt(sl.High, env)
+						if !ok {
+							return "", 0, false
+						}
+						n = h
+					}
+					return f, n, true
+				}
+				if f, n, ok := arrField(dst); ok {
+					if ss, ok := src.(*ssa.Slice); ok {
+						if off, ok := bufOffset(ss, isBuf); ok {
+							m := n
+							if ss.High != nil {
+								if h, ok := evalInt(ss.High, env); ok {
+									lo := 0
+									if ss.Low != nil {
+										lo, _ = evalInt(ss.Low, env)
+									}
+									if h-lo < m {
+										m = h - lo
+									}
+								} else {
+									lay.Issues = append(lay.Issues, p.InstrPos(ins)+": copy from the buffer with a non-constant bound")
+									return
+								}
+							}
+							for i := 0; i < m; i++ {
+								k := fmt.Sprintf("%s#%d", f, i)
+								lay.Dec[k] = off + i
+								lay.DecAll[k] = append(lay.DecAll[k], off+i)
+								lay.Pos["dec"+k] = p.InstrPos(ins)
+							}
+							return
+						}
+					}
+				}
+				if off, ok := bufOffset(dst, isBuf); ok {
+					if f, n, ok := arrField(src); ok {
+						m := n
+						if ds, ok := dst.(*ssa.Slice); ok && ds.High != nil {
+							if h, ok := evalInt(ds.High, env); ok {
+								lo := 0
+								if ds.Low != nil {
+									lo, _ = evalInt(ds.Low, env)
+								}
+								if h-lo < m {
+									m = h - lo
+								}
+							}
+						}
+						for i := 0; i < m && off+i < 64; i++ {
+							lay.Enc[off+i] = fmt.Sprintf("%s#%d", f, i)
+							lay.Pos[fmt.Sprint("enc", off+i)] = p.InstrPos(ins)
+						}
+						return
+					}
+				}
 				if off, ok := bufOffset(dst, isBuf); ok {
 					if ms, ok := src.(*ssa.MakeSlice); ok {
 						if n, ok := evalInt(ms.Len, env); ok {
